@@ -105,6 +105,10 @@ func run() {
 	}
 	plugin.VerifSetHook(func(ev string, obj interface{}, a, b int64) {
 		logEvent(ev, a, b)
+		if ev == "grpc.shutdown" && pc.OnShutdownServe > 0 && vp.PluginSideBroker != nil {
+			vp.PluginSideBroker.ServeWho(pc.OnShutdownServe, "late")
+			time.Sleep(150 * time.Millisecond)
+		}
 		if ev == "serve.stdio.swapped" && len(pc.StdioScript) > 0 {
 			vp.RunStdioScript(pc.StdioScript)
 		}
